@@ -484,7 +484,10 @@ func genSpiral(rng *rand.Rand, w int) lpoly {
 // a pixel) and one small hole placed (a) anywhere inside - in particular inside the bounding box of one long sloped edge, below
 // or above it - or (b) with every vertex a quarter pixel inside a different shell edge, so that the snapped hole touches its
 // shell with all its vertices.  Random symmetry of the square applied.  Validity is decided by the specification, not here.
-func genCourt(rng *rand.Rand, w int) lpoly {
+func genCourt(rng *rand.Rand, w int) lpoly { return genCourtSized(rng, w, false) }
+
+// big: the hole is 2-4 pixels wide, so that a hole that is filled (or a shell that is lost) shows farther than a pixel from every boundary
+func genCourtSized(rng *rand.Rand, w int, big bool) lpoly {
 	max := w * 4
 	m := max - 2
 	var shell [][2]int
@@ -547,6 +550,23 @@ func genCourt(rng *rand.Rand, w int) lpoly {
 		for tries := 0; tries < 50 && hole == nil; tries++ {
 			c := [2]int{1 + rng.Intn(m), 1 + rng.Intn(m)}
 			s := 2 + rng.Intn(max/4+1)
+			if big {
+				s = 9 + rng.Intn(max/8+1)
+				if e := rng.Intn(len(shell)); rng.Intn(3) > 0 {
+					// inside the bounding box of one sloped shell edge
+					a, b := shell[e], shell[(e+1)%len(shell)]
+					x0, x1, y0, y1 := a[0], b[0], a[1], b[1]
+					if x0 > x1 {
+						x0, x1 = x1, x0
+					}
+					if y0 > y1 {
+						y0, y1 = y1, y0
+					}
+					if x1-x0 > s && y1-y0 > s {
+						c = [2]int{x0 + rng.Intn(x1-x0-s), y0 + rng.Intn(y1-y0-s)}
+					}
+				}
+			}
 			h := [][2]int{c, {c[0], c[1] + s}, {c[0] + s, c[1] + s}, {c[0] + s, c[1]}}
 			ok := true
 			for _, q := range h {
